@@ -238,9 +238,11 @@ theorem nested_fuel (S : Schema) : ∀ (fuel : Nat) (c : Nat) (d : MsgD) (sl : L
       ∧ ValEqv S (.msg c sl ow unk cur) (.msg c sl' true unk cur)
       ∧ dumpVal S (.msg c sl' true unk cur) = .ok bs := by
   intro fuel
-  induction fuel with
+  induction fuel using Nat.strongRecOn with
+  | _ fuel0 ih =>
+  cases fuel0 with
   | zero => intro c d sl ow unk cur bs _ _ _ _ h; omega
-  | succ fuel ih =>
+  | succ fuel =>
     intro c d sl ow unk cur bs hmsg hd hdump hbl hfuel
     cases hmsg with
     | mk _ d' _ _ _ _ hd' hdist hwfg hgrpopt hcurlen hcurok hinv hselset hslots hunk =>
@@ -325,7 +327,7 @@ theorem nested_fuel (S : Schema) : ∀ (fuel : Nat) (c : Nat) (d : MsgD) (sl : L
             injection he with e1 e2 e3 e4 e5
             subst e1; subst e2; subst e3; subst e4; subst e5
             rw [hp] at hdump2; injection hdump2 with e; subst e
-            exact ih c' d2 sl' ow' unk' cur' p hmo hd2 hp (by omega) (by omega)
+            exact ih fuel (by omega) c' d2 sl' ow' unk' cur' p hmo hd2 hp (by omega) (by omega)
           exact slotStep_sub S _ d k f c' dc sl' ow' unk' cur' _ _ hdist hf hsf hr hdc hinner st b hb
       | subs _ c' xs hsf hr hms =>
         obtain ⟨ho, hg⟩ := hsf.rep hr
@@ -362,7 +364,7 @@ theorem nested_fuel (S : Schema) : ∀ (fuel : Nat) (c : Nat) (d : MsgD) (sl : L
             have hc2 : c2 = c' := by
               obtain ⟨_, _, _, _, e⟩ := hxm; injection e
             subst hc2
-            exact ih c2 d2 sl2 ow2 unk2 cur2 p hxo hd2 hp (by omega) (by omega)
+            exact ih fuel (by omega) c2 d2 sl2 ow2 unk2 cur2 p hxo hd2 hp (by omega) (by omega)
           have := slotStep_subs S _ d k f c' dc (selectedInGroup f k cur) xs hdist hf hsf hr hdc hs hinner
           rw [hh] at hb ⊢
           exact this st b hb
